@@ -98,6 +98,20 @@ def gen_cases(ctx):
             kp[r] = "1"
         cases.append(("vandermonde-rowswap", True,
                       "c07 rt vandermonde %d %d %d %d %d %s %s" % (d, p, rng.choice([1, 3]), rng.choice([1, 17]), rng.randrange(1 << 30), "".join(kd), "".join(kp))))
+    # one coder object, several reconstructions: same missing data shards, different available parity shards
+    for kind in ("cauchy", "vandermonde"):
+        for d, p in ((3, 3), (5, 4), (8, 6), (20, 7)):
+            for _ in range(4 if not thorough else 12):
+                nm = rng.randrange(1, min(d, p - 1) + 1)
+                kd = ["1"] * d
+                for i in rng.sample(range(d), nm):
+                    kd[i] = "0"
+                kps = []
+                for _k in range(3):
+                    avail = rng.sample(range(p), rng.randrange(nm, p + 1))
+                    kps.append("".join("1" if i in avail else "0" for i in range(p)))
+                kps.append("0" * p)
+                cases.append(("same-coder-twice", True, "c07 rt2 %s %d %d %d %d %d %s %s" % (kind, d, p, rng.choice([1, 2]), rng.choice([1, 9]), rng.randrange(1 << 30), "".join(kd), " ".join(kps))))
     # large valid Cauchy codes: the constructor must succeed (new_coder = Ok by its definition and C07_cauchy_wf);
     # run on the implementation only - the extracted model is quadratic in d for unary indices
     for kind, d, p in (("cauchy", 40000, 2), ("cauchy", 32769, 2), ("cauchy", 2, 40000), ("cauchy", 3, 32770)):
@@ -134,7 +148,9 @@ def run(ctx):
         elif cls == "allsubsets" and nontriv and len(ctx.samples) < 4 and line.split()[3] == "3":
             ctx.sample({"case": line, "impl": i, "model": m})
         why = None
-        if "modified" in i or "datamod" in i:
+        if cls == "same-coder-twice" and "WRONG" in i:
+            why = "nil error but restored shards differ from the originals (second reconstruction on the same coder)"
+        elif "modified" in i or "datamod" in i:
             why = "a supplied shard was altered"
         elif i.startswith("ok") and i.endswith("WRONG"):
             why = "nil error but restored shards differ from the originals"
